@@ -718,7 +718,12 @@ func (s *TxStore) Rollback(tx mwdb.DBTransaction, height uint64) error {
 		for i := len(rbBlock.transactions) - 1; i >= 0; i-- {
 			txHash := &rbBlock.transactions[i]
 
-			recKey, recVal := existsTxRecord(nsTxRecords, txHash, &rbBlock.BlockMeta)
+			recKey, recVal, err := fetchTxRecord(nsTxRecords, txHash, &rbBlock.BlockMeta)
+			if err != nil {
+				// a failed read must not be taken for a missing record: the transaction
+				// would be skipped while its block record is removed
+				return err
+			}
 			blkLoc, txLoc, err := readTxRecordLoc(recVal)
 			if err != nil {
 				logging.CPrint(logging.WARN, "readTxRecordLoc failed",
